@@ -67,7 +67,9 @@ class C08(PropBase):
         sets = []
         for _ in range(nsets):
             members = rng.sample(POOL, rng.randint(2, 4))
-            if rng.random() < 0.5:
+            if rng.random() < 0.25:
+                members = members[:1] + [NONE]  # the plain Optional[T]: one real member
+            elif rng.random() < 0.5:
                 members = members[: 3] + [NONE]
             sets.append(members)
         steps = []
